@@ -7,6 +7,7 @@
 import Purr.Lemmas.WalkL
 import Purr.Lemmas.BuilderL
 import Purr.Lemmas.RtcRing
+import Purr.Lemmas.LoopRecL
 namespace Purr.C08
 open Purr Purr.Spec
 
@@ -62,6 +63,14 @@ theorem walker_joins_paired (g : Graph) (hw : WellFormed g) (es : List (Event ×
     ∃ g', build? (es.map (·.1)) = some (.ok g') ∧ Relabelled g ord g' := by
   obtain ⟨g', hb, hr, _, _⟩ := rtc g hw es ord h
   exact ⟨g', hb, hr⟩
+
+/-- the same about `walk` itself: whenever the traversal of a well-formed adjacency list ends with `ok`, the
+    builder driven by its events reports no unmatched, rejected or missing ring bond -/
+theorem walker_joins_paired_walk (g : Graph) (hw : WellFormed g) (hok : (walk g).2 = .ok) :
+    ∃ g' ord, build? (walk g).1 = some (.ok g') ∧ Relabelled g ord g' := by
+  obtain ⟨es, ord, hr, hev⟩ := walkRec_of_walk_ok g hw hok
+  obtain ⟨g', hb, hrel⟩ := walker_joins_paired g hw es ord hr
+  exact ⟨g', ord, by rw [← hev]; exact hb, hrel⟩
 
 /-- … and at the end of the traversal no ring number is left open in the pool's sense either: an opened
     number with no closing partner would leave a placeholder, which `build` reports -/
